@@ -9,7 +9,8 @@ RULE = ("all rooted DAG shapes (n<=3 all kinds, n=4 all listing orders) x cache 
         "without commit / version at an older commit / version at HEAD) x {default, --again, --at-least HEAD} x jobs, run under the "
         "virtual kernel (all completion orders); oracle = reference needed-set (closure minus tasks satisfied by or hidden behind a "
         "reusable version): each needed task started exactly once, nothing else, cached-line set disjoint from executed set, progress "
-        "total = executed count; distinct = distinct (case, terminal event order)")
+        "total = executed count; distinct = distinct (case, terminal event order)"
+        " --at-least is given both as a full hash and as a tag / branch / HEAD (resolved through the fake git's refs).")
 ASSUMPTIONS = [
     "cache states are expressed through a pre-seeded version index + output directory; git through the fake git (2 commits c1<-c2=HEAD)",
     "the property does not quantify over failures: all tasks succeed in this check",
@@ -48,6 +49,16 @@ def items(tier):
         for combo in itertools.product(vals, repeat=len(exps)):
             yield {str(i): c[0] for i, c in zip(exps, combo) if c[0] != "no"}
 
+    C3 = "c3" * 20
+    for g in rungrid.graphs_upto((1, 2, 3)):
+        n = len(g)
+        for kinds in (["exp"] * n, (["cmd", "exp"] * n)[:n], (["combine"] + ["exp"] * n)[:n]):
+            exps = [i for i, k in enumerate(kinds) if k == "exp"]
+            for mixed in ([None, C3], [C3, None], [C3], [C1, C3], [C3, C2], [C1, C2], [C2, C1], [None, None]):
+                for which in exps:
+                    for flags in ({}, {"at_least": C2}, {"at_least": "tag-c1"}):
+                        add(dict({"g": g, "kinds": kinds, "pars": [False] * n, "jobs": 1, "cached": {str(which): mixed}, "git": True,
+                                  "empty_index": True}, **flags))
     for g in rungrid.graphs_upto((1, 2, 3)):
         n = len(g)
         for kinds in rungrid.kind_assignments(g, "all4"):
